@@ -119,6 +119,13 @@ struct Inst {
     roots: HashMap<String, Result<Vec<u8>, String>>,
     encs: HashMap<String, Result<Vec<u8>, String>>,
     compress: bool,
+    /// the environment has cut or deleted the data file: index entries may point at places that belong to other records now
+    disturbed: bool,
+    /// objects whose record a cut / deletion took bytes from and that have not been written again since: the environment's
+    /// later faults are not aimed at them (the place may belong to another record by now)
+    lost: std::collections::HashSet<String>,
+    /// the current handle was opened without initialize()
+    raw_handle: bool,
 }
 
 fn concrete_path(t: &[Payload], sym: &str) -> String {
@@ -162,6 +169,7 @@ impl Inst {
     }
     fn open(&mut self) -> String {
         self.inst = None;
+        self.raw_handle = false;
         let root = self.root.clone();
         let r = (|| -> Result<Installation, StorageError> {
             let i = Installation::open(root)?;
@@ -234,6 +242,7 @@ impl Inst {
         if name == "reopen_raw" {
             // drop + Installation::open without initialize()
             self.inst = None;
+            self.raw_handle = true;
             ev["res"] = json!(match Installation::open(self.root.clone()) {
                 Ok(i) => {
                     self.inst = Some(Arc::new(i));
@@ -250,6 +259,7 @@ impl Inst {
             // the environment shortens / deletes the data file while the installation is closed
             // (where the objects lie is read through a freshly initialised handle, whatever the current one knows)
             self.open();
+            self.disturbed = true;
             let hit: Vec<String> = if name == "cut" {
                 let files = self.data_files();
                 let newlen = files.first().map(|f| f.1.saturating_sub(u(op, "n"))).unwrap_or(0);
@@ -268,6 +278,7 @@ impl Inst {
                 }
                 h
             };
+            self.lost.extend(hit.iter().cloned());
             ev["hit"] = json!(hit);
             ev["res"] = json!(self.open());
             return;
@@ -284,6 +295,15 @@ impl Inst {
                     Ok(ck) => {
                         ev["res"] = json!("ok");
                         ev["ck"] = json!(hex(ck.as_bytes()));
+                        let n = p.name.clone();
+                        if self.raw_handle {
+                            // a write through a handle that has not loaded the directory may have replaced the file: later faults are
+                            // not aimed at the objects stored before
+                            let others: Vec<String> = self.table.iter().map(|q| q.name.clone()).collect();
+                            self.lost.extend(others);
+                            self.disturbed = true;
+                        }
+                        self.lost.remove(&n);
                     }
                     Err(e) => ev["res"] = json!(kind(&e)),
                 }
@@ -379,7 +399,7 @@ impl Inst {
             "corrupt" => {
                 // the environment flips one byte of the stored object (the memory map is shared: the change is seen)
                 let p = self.pay(s(op, "p"));
-                match self.locate(p) {
+                match self.locate(p).filter(|_| !self.lost.contains(&p.name)) {
                     None => ev["res"] = json!("skip"),
                     Some((id, off, size)) => {
                         let pos = match s(op, "at") {
@@ -394,7 +414,7 @@ impl Inst {
                             rk.reverse();
                             all.len() as u64 >= u64::from(off) + u64::from(size) && all[off as usize..off as usize + 16] == rk
                         });
-                        if !own || (s(op, "at") == "payload" && p.data.is_empty()) {
+                        if (self.disturbed && !own) || (s(op, "at") == "payload" && p.data.is_empty()) {
                             ev["res"] = json!("skip");
                         } else {
                             use std::io::{Read, Seek, SeekFrom, Write};
@@ -423,11 +443,23 @@ impl Inst {
             "raw" => {
                 // the stored record of an object, as the data file has it (for the key rule: ek = MD5(BLTE bytes))
                 let p = self.pay(s(op, "p"));
-                match self.locate(p) {
+                match self.locate(p).filter(|_| !self.lost.contains(&p.name)) {
                     None => ev["res"] = json!("skip"),
                     Some((id, off, size)) => {
-                        let all = std::fs::read(self.data_dir().join(format!("data.{id:03}"))).expect("driver: read data file");
+                        let all = std::fs::read(self.data_dir().join(format!("data.{id:03}"))).unwrap_or_default();
+                        if (all.len() as u64) < u64::from(off) + u64::from(size) {
+                            // the record is no longer (completely) there: nothing to show
+                            ev["res"] = json!("skip");
+                            return;
+                        }
                         let rec = &all[off as usize..(off + size) as usize];
+                        let mut rk = p.ek;
+                        rk.reverse();
+                        if self.disturbed && rec[..16] != rk {
+                            // the place belongs to another record by now (the file was deleted and written again)
+                            ev["res"] = json!("skip");
+                            return;
+                        }
                         ev["res"] = json!("ok");
                         ev["lhdr"] = ints(&rec[..30]);
                         ev["blte"] = ints(&rec[30..]);
@@ -480,7 +512,7 @@ fn run_inst(prog: &Value, em: &Emit) {
             encs.insert(k.clone(), guarded(|| build_enc(&table, v)).unwrap_or_else(|m| Err(format!("panic: {m}"))));
         }
     }
-    let mut w = Inst { root: dir.path().join("inst"), inst: None, dead: "closed".into(), rt: rt(), table, roots, encs, compress: prog["compress"] == json!(true) };
+    let mut w = Inst { root: dir.path().join("inst"), inst: None, dead: "closed".into(), rt: rt(), table, roots, encs, compress: prog["compress"] == json!(true), disturbed: false, lost: std::collections::HashSet::new(), raw_handle: false };
     let mut pl = Map::new();
     for p in &w.table {
         pl.insert(p.name.clone(), json!({"md5": p.md5, "len": p.data.len(), "ck": hex(&p.ck), "ek": hex(&p.ek),
